@@ -63,7 +63,7 @@ PROPS = {
                   simulate=dict(quick="num=1500", thorough="num=25000", depth=80)),
              dict(module="Gen_Edns", cfg="Gen_Edns.cfg", out="edns_cases.ndjson")],
         topic="edns",
-        rules=["NoPanic", "BuildOk", "PlainCanonical", "RoundTrip", "ParseEqRef", "MustAccept"],
+        rules=["NoPanic", "BuildOk", "PlainCanonical", "RoundTrip", "ParseEqRef", "MustAccept", "CompOpt"],
         shards=12,
     ),
     "C06": dict(
@@ -73,8 +73,12 @@ PROPS = {
                    gen=[dict(module="Gen_NameWire", cfg="Gen_NameWire.cfg", cfg_thorough="Gen_NameWire_thorough.cfg", out="name_cases.ndjson")]),
               # names inside the RDATA of every name-bearing type, plain and pointer-compressed by a third party
               dict(topic="rdata", shards=12,
-                   gen=[dict(module="Gen_RData", cfg="Gen_RData.cfg", cfg_thorough="Gen_RData_thorough.cfg", out="rdata_cases.ndjson")])],
-        rules=["NameNoPanic", "NameRef", "NameMustErr", "NameSiteAligned"],
+                   gen=[dict(module="Gen_RData", cfg="Gen_RData.cfg", cfg_thorough="Gen_RData_thorough.cfg", out="rdata_cases.ndjson")]),
+              # records whose RDLENGTH is larger / smaller than their typed content: what follows a name is still read right after it
+              dict(topic="framing", shards=12,
+                   gen=[dict(module="Gen_Framing", cfg="Gen_Framing.cfg", cfg_thorough="Gen_Framing_thorough.cfg", out="framing_cases.ndjson"),
+                        dict(module="Gen_Edns", cfg="Gen_Edns.cfg", out="edns_cases.ndjson")])],
+        rules=["NameNoPanic", "NameRef", "NameMustErr", "NameSiteAligned", "AfterName"],
     ),
     "C10": dict(
         gen=[dict(module="Gen_RData", cfg="Gen_RData.cfg", cfg_thorough="Gen_RData_thorough.cfg", out="rdata_cases.ndjson")],
@@ -419,13 +423,16 @@ TEXT = {
 EXTRA = {
     "C01": "The perturbations of every base message (all record types, framing variants, EDNS layouts) are every truncation, +-1 on every byte, the boundary values 0x00 / 0x80 / 0xFF on every byte and 0xFFFF / 0xFFFC / 0x8000 on every 16-bit position.",
     "C02": "Histories may start from a parsed message; the packet each history builds is serialised and parsed back too. Packets whose records come from the crate's convenience constructors (every way of making a TXT, typed SVCB setters, owned copies) are round-tripped as well.",
-    "C04": "Besides the builder machine's packets: packets whose records come from every convenience constructor (all ways of making a TXT incl. TryFrom<&str> at the 254/255/256/509/1000-byte boundaries and TryFrom<HashMap>, the typed SVCB setters, owned copies), each followed by further records so that a wrong length shows in the framing of what follows.",
-    "C05": "The clause 'never read from the middle of that record' is also observed directly: a hook at the top of Question::parse / ResourceRecord::parse records the offset at which the parser starts on each entry, and TLC requires those offsets to be a prefix of the entry offsets found by an independent envelope walker (EnvelopeStarts: names, fixed parts, RDLENGTH skips only), whatever the outcome of the parse (EntryAligned). Cases include RDLENGTH 0 for every type (with and without content following) and OPT at every position among 0..3 other additional records.",
-    "C06": "Names inside RDATA: for every name-bearing record type TLC prints the reference encoding and a third-party compressed one (every RDATA name a bare pointer into the question); a hook at the top of Name::parse records where the parser starts on each name and TLC requires those offsets to be, in order, the positions of the message's names as located by the schema-aware site walker of Compress.tla (NameSiteAligned: parsing of the enclosing element resumes right after the in-place bytes).",
+    "C04": "Packets that have no wire form of their own (BADVERS or a received extended rcode without an OPT record) and a received two-OPT message are serialised as well: whatever is written must be a well-framed message whose counts equal the entries written (WellFramed). Besides the builder machine's packets: packets whose records come from every convenience constructor (all ways of making a TXT incl. TryFrom<&str> at the 254/255/256/509/1000-byte boundaries and TryFrom<HashMap>, the typed SVCB setters, owned copies), each followed by further records so that a wrong length shows in the framing of what follows.",
+    "C05": "Every case starts with a question whose QTYPE (specific types and IXFR/AXFR/MAILB/MAILA/ANY), QCLASS and unicast bit vary; TTLs 0x80000000 / 0xFFFFFFFF / 0x7FFFFFFF, the cache-flush bit and class CH are spread over the records. The clause 'never read from the middle of that record' is also observed directly: a hook at the top of Question::parse / ResourceRecord::parse records the offset at which the parser starts on each entry, and TLC requires those offsets to be a prefix of the entry offsets found by an independent envelope walker (EnvelopeStarts: names, fixed parts, RDLENGTH skips only), whatever the outcome of the parse (EntryAligned). Cases include RDLENGTH 0 for every type (with and without content following) and OPT at every position among 0..3 other additional records.",
+    "C06": "The framing cases (records whose RDLENGTH is larger or smaller than their typed content) are parsed too and the fields that FOLLOW a name in a record's schema must equal the reference decoding (AfterName). Names inside RDATA: for every name-bearing record type TLC prints the reference encoding and a third-party compressed one (every RDATA name a bare pointer into the question); a hook at the top of Name::parse records where the parser starts on each name and TLC requires those offsets to be, in order, the positions of the message's names as located by the schema-aware site walker of Compress.tla (NameSiteAligned: parsing of the enclosing element resumes right after the in-place bytes).",
     "C10": "Also: for every name-bearing type a third-party pointer-compressed encoding (the parsed result must equal the reference decoding), three- and four-window NSEC orderings among the rule-breaking encodings, and random sequences of the typed SvcParam setters of SVCB/HTTPS (set_port, set_alpn, set_no_default_alpn, set_ipv4hint, set_ipv6hint, set_mandatory, set_param): iter_params, get_param and the built record must show the RFC 9460 section 7 values computed in the specification (SvcbSetters).",
     "C13": "In addition to the random histories, a bounded-exhaustive matrix: every record of the catalogue (incl. MB/MG/MR/MX/MINFO) registered alone x every supported QTYPE and IXFR/AXFR/MAILB/MAILA/ANY x QCLASS {IN, CH, ANY}, asked at the record's own name and at its parent.",
-    "C14": "Sampled on real sockets (NetRun): sync and tokio responder and discovery services answer a probe before the hostile burst and must still answer after it (a fresh control responder tells a dead loop from a dead network); the one-shot resolver keeps resolving (an answered name, an unanswered name, address-and-port of an unanswered service) during the whole burst, which includes responses with id 0 owned by the names it asks for with empty, truncated and mistyped RDATA; any panic on a library thread is a violation.",
+    "C14": "The discovery-listener pipeline runs without a notification channel, with a live one (drained by the application) and with one whose receiver was dropped, sync and tokio; the usability probe after every datagram does what get_known_services() does (from_records over the cached records); hostile labels cover every alignment of character boundaries (0..3 ASCII bytes followed by invalid, 2-byte and 4-byte units). Sampled on real sockets (NetRun): sync and tokio responder and discovery services answer a probe before the hostile burst and must still answer after it (a fresh control responder tells a dead loop from a dead network); the one-shot resolver keeps resolving (an answered name, an unanswered name, address-and-port of an unanswered service) during the whole burst, which includes responses with id 0 owned by the names it asks for with empty, truncated and mistyped RDATA; any panic on a library thread is a violation.",
     "C15": "Protocol level: Discovery.tla (one action per implementation step of ServiceDiscovery, sync and tokio flavours; MC_Discovery, MC_DiscoveryAsync, MC_DiscoveryLossy) model-checks NeverPartial, NothingForeign, Prompt and Stable. Sampled on real sockets (E2E): 2-3 real ServiceDiscovery peers (sync, then tokio) advertise random instances of a unique service on the loopback multicast group; every sample of every peer's get_known_services() must consist of exactly the instances other running peers advertise (DiscoverExact, every observation), and within two seconds every running peer must list every other one and keep doing so after a third one left, in at least one of the attempts (E2EDiscovered).",
+    "C09": "The EDNS data and the 12-bit response code must also survive the compressing serialiser: the reference decoder applied to build_bytes_vec_compressed of every OPT-carrying packet of the builder machine finds the same OPT data and rcode (CompOpt), whatever else the message holds (e.g. a non-empty authority section).",
+    "C17": "The alphabet includes space and newline (whitespace at the ends of a text must not be trimmed away).",
+    "C18": "Opaque records are tried with five payloads (arbitrary bytes and bytes shaped like a character-string, a name, an address); a message whose record of an unknown type the library rejects is itself reported.",
     "C20": "Every other received record of a history crosses the wire in a compressed response and enters the store through the discovery listener's own ingest function (owned copies) instead of the store API. Protocol level: Discovery.tla model-checks that an ingested goodbye removes the peer from view one second later (GoodbyeHonoured) and refutes the keep-the-later-expiry design. Sampled on real sockets (E2E): 2-3 real sync ServiceDiscovery peers find each other, one calls remove_service_from_discovery, and it must be gone from the others' get_known_services() three seconds later in at least one of the attempts (E2EGoodbye).",
 }
 for _k, _v in EXTRA.items():
